@@ -444,6 +444,23 @@ k("K172", "C06", "segment/encode.go", "\t\treturn fmt.Errorf(\"cannot compress s
 k("K173", "C09", "client/inflight.go", "\tif f.Header.OpCode == primitive.OpCodeResult {\n\t\tresult := f.Body.Message.(message.Result)", "\tif f.Header.Version.SupportsDseRevisionType(primitive.DseRevisionTypeMoreContinuousPages) && f.Header.OpCode == primitive.OpCodeResult {\n\t\tresult := f.Body.Message.(message.Result)",
   "last-frame:isLastFrame@D1", "last-frame detection gated by a version predicate that excludes DSE v1")
 
+k("K174", "C15", "segment/decode.go", "\tif _, err := io.ReadFull(source, encodedPayload); err != nil {", "\tif _, err := source.Read(encodedPayload); err != nil {",
+  "full-reads:(*segment.codec).decodeSegmentPayload Read#1", "segment payload read with a single Read")
+k2("K175", "C18", [("datacodec/reflection.go", "\t\"strings\"\n", "\t\"strings\"\n\t\"sync\"\n"),
+   ("datacodec/reflection.go", "func locateFieldByName(structValue reflect.Value, name string) (value reflect.Value) {\n\tstructType := structValue.Type()\n", "var structFieldIndexes sync.Map\n\nfunc locateFieldByName(structValue reflect.Value, name string) (value reflect.Value) {\n\tstructType := structValue.Type()\n\tcached, _ := structFieldIndexes.LoadOrStore(structType, map[string]int{})\n\tindexes := cached.(map[string]int)\n\tif i, found := indexes[name]; found {\n\t\treturn structValue.Field(i)\n\t}\n"),
+   ("datacodec/reflection.go", "\t\t\tvalue = structValue.Field(i)\n\t\t\tbreak", "\t\t\tindexes[name] = i\n\t\t\tvalue = structValue.Field(i)\n\t\t\tbreak")],
+  "write-free:datacodec.locateFieldByName", "plain map published through a sync.Map and filled without a lock")
+k("K176", "C13", "datacodec/conversions.go", "\tif f64, accuracy := val.Float64(); accuracy != big.Exact {", "\tif f64, _ := val.Float64(); val.MinPrec() > 53 {",
+  "flag-examined:datacodec.bigFloatToFloat64 -> big.Float64#1", "accuracy of big.Float.Float64 dropped")
+k("K177", "C12", "datacodec/udt.go", "\t\tif reader.Len() > 0 {\n\t\t\tvar err error", "\t\tif reader.Len() == 0 {\n\t\t\tbreak\n\t\t}\n\t\tif true {\n\t\t\tvar err error",
+  "every-position-injected:udt inject @v4", "missing trailing UDT fields are not injected as NULL")
+k("K178", "C14", "datacodec/reflection.go", "\tif kind != reflect.Interface &&\n\t\tkind != reflect.Ptr &&", "\tif kind != reflect.Interface &&\n\t\tkind != reflect.Array &&\n\t\tkind != reflect.Ptr &&",
+  "nillable-wrap:ensureNillable(Array)", "array-kind preferred types (UUID) not made nillable")
+k("K179", "C11", "datacodec/varint.go", "\tcase uint:\n\t\tval = new(big.Int).SetUint64(uint64(s))\n", "\tcase uint:\n\t\tval = big.NewInt(int64(s))\n",
+  "conversion-purity:convertToBigInt case uint", "uint encoded through a signed cast")
+k("K180", "C17", "frame/deepcopy_generated.go", "\t\t*out = make([]byte, len(*in))\n\t\tcopy(*out, *in)\n\t}\n\treturn\n}\n\n// DeepCopy is an autogenerated deepcopy function, copying the receiver, creating a new RawFrame.", "\t\tif cap(*out) >= len(*in) {\n\t\t\t*out = (*out)[:len(*in)]\n\t\t} else {\n\t\t\t*out = make([]byte, len(*in))\n\t\t}\n\t\tcopy(*out, *in)\n\t}\n\treturn\n}\n\n// DeepCopy is an autogenerated deepcopy function, copying the receiver, creating a new RawFrame.",
+  "field:(*frame.RawFrame).DeepCopyInto.Body", "existing buffer reused: the copy can stay an alias of the original")
+
 
 json.dump(C, open(os.path.join(os.path.dirname(os.path.abspath(__file__)), "controls.json"), "w"), indent=1)
 print(len(C), "controls")
